@@ -5,6 +5,7 @@ Sections of one run (all enumerations are deterministic; the seed only adds inde
   S2  `x[ix]` on unyt objects: class, shape, units, name, memory — model + direct oracle
   S3  iteration
   S4  constructors, `data * unit`, list coercion
+  S4b `_coerce_iterable_units` as the program regenerated from the live source (dtype kinds x offset units x routes)
   S5  accessor table (regenerated probe vs live re-probe on every shape) + view/copy oracle
   S6  ufuncs (every registered ufunc × operand classes × shapes × methods)
   S7  array functions / ndarray methods catalogue (handled and default-path)
@@ -51,6 +52,7 @@ def run(tier, seed):
     guarded("S2", O.s2_getitem)
     guarded("S3", O.s3_iteration)
     guarded("S4", O.s4_constructors)
+    guarded("S4b", O.s4b_coerce_prog)
     guarded("S5", O.s5_accessors)
     guarded("S6", O.s6_ufuncs)
     guarded("S7", O.s7_functions)
@@ -63,7 +65,7 @@ def run(tier, seed):
     ]
     rule = ("S1: shapes x index forms (int, slice, Ellipsis, newaxis, boolean mask, integer array, tuples; deterministic catalogue + seeded tuples), "
             "broadcast pairs, reductions, reshapes vs NumPy; S2/S3: the same index forms on unyt_array / unyt_quantity / subclass parents; "
-            "S4: constructors x input kinds x shapes, data*unit, quantity lists; S5: accessors x shapes; "
+            "S4: constructors x input kinds x shapes, data*unit, quantity lists; S4b: quantity lists through the regenerated _coerce_iterable_units program: unit groups (offset, plain, incommensurable) x element dtype kinds and shapes x routes (list/tuple constructor, ufunc list operand left/right) x position of the differing unit; S5: accessors x shapes; "
             "S6: every ufunc in unyt_array._ufunc_registry x operand class pairs x shape pairs x (call, reduce, accumulate, outer); "
             "S7: array-function / method catalogue x shapes; distinct = distinct (section, operation, operand classes, shapes, index form)")
     return chk.finish(rule)
